@@ -638,12 +638,88 @@ def rule_flag_gates(ctx, repo):
                   "; ".join(bad[:2]) + " -- EIG.run reports success on a state that TDS marks invalid", pcf.W())
 
 
+def rule_criterion_operand(ctx, repo):
+    """the stability criterion is active from the start of the integration: what `check_criteria` reads (the addresses of the monitored
+    rotor angles) is established by TDS.init whenever the criterion is enabled -- not only by a connectivity check after a switching
+    event.  Reader, writer and the call chain are discovered from the source."""
+    cc = F.method(repo, "TDS", "check_criteria", TDS)
+    reads = sorted({n.attr for n in walk_noscope(cc.fn) if isinstance(n, ast.Attribute) and isinstance(n.ctx, ast.Load)
+                    and (dotted(n) or "").startswith("self.system.") and n.attr.endswith("_addr")})
+    if not reads:
+        ctx.undecided("C17.criteria", "TDS.check_criteria/operand", "the criterion's operand (an address list of the system) is not recognised", cc.W())
+        return
+    for attr in reads:
+        writers = []
+        # every method that assigns `<x>.<attr>` outside a constructor
+        for cname, cis in repo.classes.items():
+            for ci in (cis if isinstance(cis, list) else [cis]):
+                for mname, fn in ci.methods.items():
+                    if mname == "__init__":
+                        continue
+                    if any(isinstance(t, ast.Attribute) and t.attr == attr for st in walk_noscope(fn) if isinstance(st, ast.Assign) for t in st.targets):
+                        writers.append((ci, mname, fn))
+        if not writers:
+            ctx.violation("C17.criteria", "TDS.check_criteria/%s" % attr, "nothing but a constructor ever writes `%s`: the criterion tests an empty list" % attr, cc.W())
+            continue
+        wnames = {m for _c, m, _f in writers}
+        # functions that call a writer (by method name), one level
+        callers = {}
+        for cname, cis in repo.classes.items():
+            for ci in (cis if isinstance(cis, list) else [cis]):
+                for mname, fn in ci.methods.items():
+                    cs = [c for c in calls_in(fn) if isinstance(c.func, ast.Attribute) and c.func.attr in wnames]
+                    if cs:
+                        callers[(ci.name, mname)] = (ci, fn, cs)
+        init = F.method(repo, "TDS", "init", TDS)
+        flag_set = [n for n in init.g.nodes() if init.g.data(n)["kind"] == "stmt" and Q.match("self.initialized = True", init.g.data(n)["ast"])]
+        cand = []
+        for n in init.g.nodes():
+            d = init.g.data(n)
+            if d["kind"] != "stmt":
+                continue
+            for c in calls_in(d["ast"]):
+                if isinstance(c.func, ast.Attribute) and (c.func.attr in wnames or any(c.func.attr == m for (_cn, m) in callers)):
+                    cand.append((n, d["ast"], c))
+        good, why = False, "TDS.init never calls %s (directly or through %s)" % (sorted(wnames), sorted(m for _c, m in callers))
+        for n, st, c in cand:
+            pc = Q.path_condition(init.fn, st) or []
+            leaves = []
+            for t, _pol in pc:
+                Q._bool_leaves(t, leaves)
+            foreign = [src(l) for l in leaves if "criteria" not in src(l)]
+            if foreign:
+                why = "the call `%s` in TDS.init is additionally conditional on `%s`" % (src(c)[:60], foreign[0])
+                continue
+            if (c.func.attr not in wnames) and not (flag_set and all(init.g.dominates(fs, n) for fs in flag_set[:1])):
+                why = "`%s` runs before `self.initialized = True`, and the callee only records the addresses of an initialised simulation" % src(c)[:60]
+                continue
+            good = True
+        # the callee's own guard on the writer call mentions nothing but the criterion switch and the initialised flag
+        for (cn, mn), (ci, fn, cs) in callers.items():
+            if cn != "System":
+                continue
+            for c in cs:
+                stc = [st for st in walk_noscope(fn) if isinstance(st, ast.stmt) and any(x is c for x in ast.walk(st)) and not isinstance(st, (ast.If, ast.For, ast.While, ast.With, ast.Try))]
+                pc = Q.path_condition(fn, stc[0]) if stc else []
+                leaves = []
+                for t, _pol in pc or []:
+                    Q._bool_leaves(t, leaves)
+                foreign = [src(l) for l in leaves if "criteria" not in src(l) and "initialized" not in src(l)]
+                if foreign:
+                    good, why = False, "%s.%s records the monitored addresses only if `%s`" % (cn, mn, foreign[0])
+        ctx.check(good, "C17.criteria", "TDS.init/%s" % attr, "`%s`, read by check_criteria, is established by TDS.init whenever the criterion is enabled "
+                  "(writer: %s)" % (attr, ", ".join("%s.%s" % (c_.name, m_) for c_, m_, _ in writers)),
+                  why + ": until a switching event triggers a connectivity check (never with check_conn = 0) the stability criterion tests an "
+                  "empty list and an unstable run is reported as a success", init.W())
+
+
 def run(ctx):
     ctx.rule("C17.exit", "every unsuccessful return of PFlow.run, TDS.run, TDS.test_init, EIG.run, System.setup passes an "
              "exit_code increment (frozen exception: repeated setup())", 9)
     ctx.rule("C17.success", "success flags are dominated by the routine's own residual / termination test", 6)
     ctx.rule("C17.gate", "dependent computations are dominated by a PFlow.converged / is_setup / pre-check gate with early return; no-state refusal on every path; every success flag of the prerequisite state (busted, test_ok) consulted with a refusing branch", 11)
     ctx.rule("C17.aggregate", "CLI aggregation: failed load, None system, lists, missing file, parse failures; entry points propagate the exit status", 8)
+    ctx.rule("C17.criteria", "the operand of the stability criterion is established by TDS.init whenever the criterion is enabled", 1)
     ctx.rule("C17.nan", "NaN exits precede state updates / success; the convergence measure is NaN-propagating", 5)
     ctx.rule("C17.sentinel", "linear-solver NaN sentinel propagation (rules shared with C16)", 4)
     ctx.assume("that every ill-posed input actually triggers one of these exits is a runtime fact: declined")
@@ -652,6 +728,7 @@ def run(ctx):
     rule_main(ctx, repo)
     rule_gating(ctx, repo)
     rule_flag_gates(ctx, repo)
+    rule_criterion_operand(ctx, repo)
     rule_flag_reset(ctx, repo)
     rule_newton_exits(ctx, repo)
     rule_nan_measure(ctx, repo)
